@@ -9,6 +9,13 @@ Parameterized values), for **every** value of a boundary-rich lattice of literal
 subset of changed parameters of the wide class, and the full product of the small constructor
 classes.  Both texts are evaluated back and the rebuilt object compared with the original.
 
+Two extension families: (1) class ``DBox`` declares NON-EMPTY container defaults; every value of the
+same size as the default with other keys / items and None / falsy values in the new places is
+printed alone, among other changed parameters and nested inside other objects; (2) two threads:
+thread A is suspended at every line of the printer functions in turn while thread B prints the same
+object (or its nested child) from start to end -- a deterministic one-preemption schedule, no real
+race -- and each of the two texts must rebuild an equal object.
+
 Oracle (from the statement)
 ---------------------------
 ``eval(text)`` (for ``script_repr``: run the import lines, evaluate the final expression) must
@@ -105,9 +112,24 @@ class Node(param.Parameterized):
     label = param.String(default='')
     child = param.ClassSelector(class_=param.Parameterized, default=None)
     kids = param.List(default=[])
+
+class DBox(param.Parameterized):
+    """container-valued parameters whose declared defaults are NOT empty"""
+    d2 = param.Dict(default={'a': 1, 'b': 2})
+    d1 = param.Dict(default={'k': None})
+    dn = param.Dict(default={'a': {'x': 1}, 'b': [1, 2]})
+    p2 = param.Parameter(default={'a': 1, 'b': 2})
+    l2 = param.List(default=[{'a': 1}, {'b': 2}])
+    t2 = param.Tuple(default=({'a': 1}, [0, 1]))
+    lst2 = param.List(default=[1, 2])
+    sub = param.ClassSelector(class_=param.Parameterized, default=None)
+
+class DBox2(DBox):
+    """overrides a dict default with one holding None under other keys"""
+    d2 = param.Dict(default={'x': None, 'y': None})
 '''
 
-CLASSES = ("Leaf", "Box", "Box2", "Pos", "Pos2", "Closed", "KwOnly", "Node")
+CLASSES = ("Leaf", "Box", "Box2", "Pos", "Pos2", "Closed", "KwOnly", "Node", "DBox", "DBox2")
 
 # ---------------------------------------------------------------------------------------
 # value lattice: (feature label, python source of the value)
@@ -173,6 +195,105 @@ BOX_LATTICE = {
 BOX_SAFE = [("s", "'x'"), ("n", "-2.5"), ("i", "7"), ("flag", "True"), ("p", "[1, 'a']"), ("lst", "[3]"),
             ("lst1", "[]"), ("tup", "(1, 2)"), ("d", "{'k': 1}"), ("sub", "Leaf(n=2)"), ("hi", "1"), ("lo", "2"),
             ("name", "'nm'")]
+
+
+# ---------------------------------------------------------------------------------------
+# same-size container variants: values that have the SAME SIZE as the declared (non-empty) default
+# but other keys / other items, with None and falsy values in the new places
+# ---------------------------------------------------------------------------------------
+DBOX_DEFAULTS = {
+    "d2": {'a': 1, 'b': 2}, "d1": {'k': None}, "dn": {'a': {'x': 1}, 'b': [1, 2]}, "p2": {'a': 1, 'b': 2},
+    "l2": [{'a': 1}, {'b': 2}], "t2": ({'a': 1}, [0, 1]), "lst2": [1, 2],
+}
+DBOX_SAFE = [("d2", "{'q': 1}"), ("d1", "{'q': 1, 'r': 2}"), ("dn", "{'q': [1]}"), ("p2", "'pv'"), ("l2", "[3]"),
+             ("t2", "(1, 2)"), ("lst2", "[3]"), ("sub", "Leaf(n=2)")]
+FALSY = [None, 0, False, '', [], {}]
+
+
+def _keysets(keys, pool, n):
+    import itertools
+    allk = list(keys) + [k for k in pool if k not in keys]
+    return [ks for ks in itertools.combinations(allk, n)]
+
+
+def dict_variants(default, extra_values=(), nested=None, newkeys=('x', 'y')):
+    """dicts with len == len(default): every key set of that size from (default keys + new keys),
+    every assignment of {original value, None, falsy values, a truthy value} to the keys."""
+    import itertools
+    n = len(default)
+    out = []
+    for ks in _keysets(list(default), newkeys, n):
+        pools = []
+        for k in ks:
+            pool = ([default[k]] if k in default else []) + FALSY + [1] + list(extra_values)
+            if nested and k in nested:
+                pool += nested[k]
+            pools.append(pool)
+        for vals in itertools.product(*pools):
+            out.append(dict(zip(ks, vals)))
+    return out
+
+
+def seq_variants(default, items):
+    import itertools
+    return [type(default)(c) for c in itertools.product(items, repeat=len(default))]
+
+
+def _kind_of(v, default):
+    """witness class of a variant (few classes: one defect must not give hundreds of witnesses)."""
+    base = "samesize-" + type(default).__name__ if len(v) == len(default) else "othersize-" + type(default).__name__
+    if isinstance(default, dict) and len(v) == len(default):
+        new = [k for k in v if k not in default]
+        base += "-newkeys" if new else "-samekeys"
+    return base
+
+
+def dbox_cases(tier, seed):
+    """(class, constructor source, feature, changed) for the same-size family."""
+    out = []
+    var = {}
+    var["d2"] = dict_variants(DBOX_DEFAULTS["d2"], newkeys=['x', 'y']) + [{'b': 2, 'a': 1}, {'a': 1}, {'a': 1, 'b': 2, 'x': None}, {}]
+    var["p2"] = var["d2"] + [None, [1, 2], ('a', 'b')]
+    var["d1"] = dict_variants(DBOX_DEFAULTS["d1"], newkeys=['x', 0, '', None]) + [{}, {'k': None, 'x': None}]
+    var["dn"] = dict_variants(DBOX_DEFAULTS["dn"], newkeys=['x', 'y'],
+                              nested={'a': [{'y': None}, {'x': None}, {'x': 0}, {'y': 1}],
+                                      'b': [[None, None], [0, 0], [2, 1], [1, None]],
+                                      'x': [{'x': 1}, [1, 2], {'y': None}, [None, None]],
+                                      'y': [{'x': 1}, [1, 2]]})
+    var["l2"] = seq_variants(DBOX_DEFAULTS["l2"], [{'a': 1}, {'b': 2}, {'x': None}, {'a': None}, {'b': 0}, {}, None, 0,
+                                                   []]) + [[{'a': 1}], [{'a': 1}, {'b': 2}, {}]]
+    var["t2"] = seq_variants(DBOX_DEFAULTS["t2"], [{'a': 1}, {'x': None}, {'a': None}, [0, 1], [None, None], [0, 0],
+                                                   [1, 0], None, 0])
+    var["lst2"] = seq_variants(DBOX_DEFAULTS["lst2"], [1, 2, None, 0, False, '', [], {}]) + [[1], [1, 2, None], []]
+    # the nested-dict product is large: quick takes a seeded slice of it (deterministic), thorough all
+    if tier == "quick" and len(var["dn"]) > 400:
+        step = len(var["dn"]) // 400 + 1
+        var["dn"] = var["dn"][seed % step::step]
+    for pname in ("d2", "d1", "p2", "dn", "l2", "t2", "lst2"):
+        dflt = DBOX_DEFAULTS[pname]
+        others = ", ".join("%s=%s" % kv for kv in DBOX_SAFE if kv[0] != pname)
+        for v in var[pname]:
+            sized = isinstance(v, (dict, list, tuple))
+            feat = _kind_of(v, dflt) if sized and type(v) is type(dflt) else "othertype"
+            src = repr(v)
+            out.append(("DBox", "DBox(%s=%s)" % (pname, src), feat, pname))
+            if pname in ("d2", "d1", "l2"):
+                # nested inside another Parameterized: as parameter value, as list item, as own sub-object
+                out.append(("Node", "Node(child=DBox(%s=%s))" % (pname, src), feat + "-in-obj", "child"))
+                out.append(("Node", "Node(label='n', kids=[DBox(%s=%s), Leaf()])" % (pname, src),
+                            feat + "-in-obj-in-list", "label+kids"))
+                out.append(("DBox", "DBox(sub=DBox(%s=%s))" % (pname, src), feat + "-in-obj", "sub"))
+            if pname in ("d2", "d1", "lst2", "l2"):
+                out.append(("DBox", "DBox(%s=%s, %s)" % (pname, src, others), feat, pname + "+all-others"))
+        if pname == "d2":
+            # class whose overridden default itself holds None under other keys
+            for v in var["d2"]:
+                feat = _kind_of(v, {'x': None, 'y': None})
+                out.append(("DBox2", "DBox2(d2=%s)" % repr(v), feat, "d2"))
+                out.append(("Node", "Node(child=DBox2(d2=%s))" % repr(v), feat + "-in-obj", "child"))
+    out.append(("DBox", "DBox()", "all-default", "-"))
+    out.append(("DBox2", "DBox2()", "all-default", "-"))
+    return out
 
 
 def gen_cases(tier, seed):
@@ -266,6 +387,8 @@ def gen_cases(tier, seed):
     out.append(("Node", "Node(label='top', child=Node(label='mid', child=Node(label=\"lo'w\", kids=[Leaf(s='x')])))",
                 "obj-nested3", "label+child"))
     out.append(("Leaf", "Leaf()", "all-default", "-"))
+    # 5. same-size container values against non-empty declared defaults (also nested in other objects)
+    out.extend(dbox_cases(tier, seed))
     seen, res = set(), []
     for cls, src, feat, changed in out:
         if src in seen:
@@ -379,30 +502,7 @@ def check_case(src, cls, explicit_name):
     return out
 
 
-def _worker(chunk):
-    _quiet()
-    res = []
-    for idx, (key, cls, src, feat, changed) in chunk:
-        try:
-            f = check_case(src, cls, _has_top_name(src))
-        except Exception as e:                         # noqa
-            f = [("setup", "constructs", "constructing %s raised %s: %s" % (src, type(e).__name__, e))]
-        res.append((idx, f))
-    return res
-
-
-def _has_top_name(src):
-    """does the top-level call pass name=... (depth-1 keyword)?"""
-    tree = ast.parse(src, mode="eval").body
-    return any(kw.arg == "name" for kw in tree.keywords)
-
-
-def make_replay(src, cls, via, kind, clause, witness, explicit):
-    hdr = REPLAY_HEADER.format(prop=PROP, name="replay_c20.py", clause=clause, witness=witness)
-    s = hdr + "import ast, math, re, logging, warnings\nwarnings.simplefilter('ignore')\n"
-    s += CLASS_SRC
-    s += "param.parameterized.get_logger().setLevel(logging.CRITICAL + 1)\n"
-    s += '''
+REPLAY_HELPERS = '''
 def eval_text(text, ns):
     tree = ast.parse(text); last = tree.body.pop()
     exec(compile(tree, '<text>', 'exec'), ns)
@@ -437,6 +537,179 @@ def diff(a, b, path, explicit=None):
     return None if a == b else '%s: %r != %r' % (path, b, a)
 
 '''
+
+# ---------------------------------------------------------------------------------------
+# two threads printing the same object: deterministic one-preemption schedules
+# ---------------------------------------------------------------------------------------
+# Thread A prints the object under a line tracer; at the k-th line executed inside one of the printer
+# functions of /repo it is suspended, a second thread B prints the same object (or its nested child)
+# from start to end, then A continues.  k ranges over every such line.  There is no real race: the
+# schedule is fully determined by k.  Each of the two texts must rebuild an equal object.
+PRINTER_FUNCS = ("pprint", "_pprint", "script_repr", "container_script_repr", "wrapper", "function_script_repr",
+                 "type_script_repr")
+THREAD_OBJECTS = [
+    ("Node", "Node(label='t', child=Leaf(s='x'), kids=[Leaf(i=9)])"),
+    ("Box", "Box(s='x', lst=[1, (2, 3)], sub=Leaf(n=2))"),
+    ("Pos", "Pos(5, 'q', c=4)"),
+    ("DBox", "DBox(d2={'x': None, 'y': 0})"),
+]
+THREAD_SRC = '''
+import os, sys, threading
+import param as _param
+_PDIR = os.path.dirname(os.path.abspath(_param.__file__))
+PRINTER_FUNCS = %r
+
+def _print(o, via):
+    return o.param.pprint() if via == 'pprint' else _param.script_repr(o)
+
+def two_threads(obj, via_a, obj_b, via_b, k):
+    """print obj in thread A; when A executes its k-th printer line, thread B prints obj_b completely.
+    Returns (number of printer lines A executed, outcome of A, outcome of B or None)."""
+    n = [0]
+    res = {}
+    def run_b():
+        try:
+            res['B'] = ('text', _print(obj_b, via_b))
+        except Exception as e:
+            res['B'] = ('exc', '%%s: %%s' %% (type(e).__name__, e))
+    def local(frame, ev, arg):
+        if ev == 'line':
+            if n[0] == k:
+                tb = threading.Thread(target=run_b)
+                tb.start()
+                tb.join()
+            n[0] += 1
+        return local
+    def tracer(frame, ev, arg):
+        co = frame.f_code
+        if co.co_name in PRINTER_FUNCS and co.co_filename.startswith(_PDIR):
+            return local
+        return None
+    def run_a():
+        sys.settrace(tracer)
+        try:
+            res['A'] = ('text', _print(obj, via_a))
+        except Exception as e:
+            res['A'] = ('exc', '%%s: %%s' %% (type(e).__name__, e))
+        finally:
+            sys.settrace(None)
+    ta = threading.Thread(target=run_a)
+    ta.start()
+    ta.join()
+    return n[0], res.get('A'), res.get('B')
+''' % (PRINTER_FUNCS,)
+exec(compile(THREAD_SRC, "<c20 two threads>", "exec"), globals())
+
+
+def roundtrip(text, obj, cls, explicit, base_ns):
+    """None when ``text`` rebuilds an object equal to obj, else (clause kind, detail)."""
+    try:
+        new = eval_text(text, dict(base_ns))
+    except Exception as e:                             # noqa
+        return ("evaluates", "text %r does not evaluate: %s: %s" % (text, type(e).__name__, str(e)[:200]))
+    if type(new) is not type(obj):
+        return ("same-class", "text %r built a %s, not a %s" % (text, type(new).__name__, cls))
+    d = diff_values(obj, new, cls, top_explicit_name=explicit)
+    if d:
+        return ("equal-values", "text %r rebuilt a different value (rebuilt != original) %s" % (text, d))
+    return None
+
+
+def thread_tasks(tier, seed):
+    """(class, source, via of A, via of B, what B prints, stride, offset)"""
+    stride = 1 if tier != "quick" else 3
+    tasks = []
+    for cls, src in THREAD_OBJECTS:
+        for va in ("pprint", "script_repr"):
+            for vb in ("pprint", "script_repr"):
+                for other in ("same", "child"):
+                    if other == "child" and cls != "Node":
+                        continue
+                    tasks.append((cls, src, va, vb, other, stride, seed % stride))
+    return tasks
+
+
+def _thread_worker(task):
+    import param
+    _quiet()
+    cls, src, va, vb, other, stride, offset = task
+    mod = get_module()
+    base_ns = dict(mod.__dict__)
+    base_ns.update({"inf": math.inf, "nan": math.nan, "param": param, MODNAME: mod})
+    obj = eval(src, dict(base_ns))
+    objb = obj if other == "same" else obj.child
+    seq = {"A": _print(obj, va), "B": _print(objb, vb)}       # noqa: F821  (defined by THREAD_SRC)
+    ok_seq = {"A": roundtrip(seq["A"], obj, cls, False, base_ns) is None,
+              "B": roundtrip(seq["B"], objb, type(objb).__name__, False, base_ns) is None}
+    total, _, _ = two_threads(obj, va, objb, vb, -1)            # noqa: F821
+    ncases, checks, fails = 0, 0, []
+    for k in range(offset, total, stride):
+        ncases += 1
+        n, ra, rb = two_threads(obj, va, objb, vb, k)           # noqa: F821
+        for who, r, o in (("A", ra, obj), ("B", rb, objb)):
+            checks += 1
+            if r is None:
+                continue            # B was never started: A took another path (cannot happen for k < total)
+            if r[0] == "exc":
+                fails.append((k, who, "produces-text", "thread %s: printing raised %s" % (who, r[1])))
+            elif r[1] != seq[who] or not ok_seq[who]:
+                bad = roundtrip(r[1], o, type(o).__name__, False, base_ns)
+                if bad and ok_seq[who]:
+                    fails.append((k, who, bad[0], "thread %s (sequential text %r): %s" % (who, seq[who], bad[1])))
+        if fails:
+            break
+    return task, ncases, checks, total, fails[:2]
+
+
+def make_replay_threads(cls, src, va, vb, other, k, who, clause, witness):
+    hdr = REPLAY_HEADER.format(prop=PROP, name="replay_c20_threads.py", clause=clause, witness=witness)
+    s = hdr + "import ast, math, re, logging, warnings\nwarnings.simplefilter('ignore')\n"
+    s += CLASS_SRC
+    s += "param.parameterized.get_logger().setLevel(logging.CRITICAL + 1)\n"
+    s += THREAD_SRC
+    s += REPLAY_HELPERS
+    s += "obj = %s\nobj_b = %s\n" % (src, "obj" if other == "same" else "obj.child")
+    s += "print('sequential:', repr(_print(obj, %r)), repr(_print(obj_b, %r)))\n" % (va, vb)
+    s += "n, ra, rb = two_threads(obj, %r, obj_b, %r, %d)\n" % (va, vb, k)
+    s += "print('thread A (suspended at its printer line %d):', ra)\nprint('thread B (ran meanwhile):', rb)\n" % k
+    s += "ns = dict(globals()); ns.update(inf=math.inf, nan=math.nan)\n"
+    s += "for who, r, o in (('A', ra, obj), ('B', rb, obj_b)):\n"
+    s += "    if r is None: continue\n"
+    s += "    if r[0] == 'exc':\n        print('REPRODUCED: thread %s: printing raised %s' % (who, r[1])); sys.exit(1)\n"
+    s += ("    try:\n        new = eval_text(r[1], dict(ns))\n    except Exception as e:\n"
+          "        print('REPRODUCED: text of thread %s does not evaluate: %s: %s' % (who, type(e).__name__, e)); sys.exit(1)\n")
+    s += ("    if type(new) is not type(o):\n"
+          "        print('REPRODUCED: text of thread %s rebuilt a %s, not a %s' % (who, type(new).__name__, type(o).__name__)); sys.exit(1)\n")
+    s += "    d = diff(o, new, type(o).__name__, False)\n"
+    s += "    if d:\n        print('REPRODUCED: text of thread %s rebuilt a different object (rebuilt != original) %s' % (who, d)); sys.exit(1)\n"
+    s += "print('NOT-REPRODUCED'); sys.exit(0)\n"
+    return s
+
+
+def _worker(chunk):
+    _quiet()
+    res = []
+    for idx, (key, cls, src, feat, changed) in chunk:
+        try:
+            f = check_case(src, cls, _has_top_name(src))
+        except Exception as e:                         # noqa
+            f = [("setup", "constructs", "constructing %s raised %s: %s" % (src, type(e).__name__, e))]
+        res.append((idx, f))
+    return res
+
+
+def _has_top_name(src):
+    """does the top-level call pass name=... (depth-1 keyword)?"""
+    tree = ast.parse(src, mode="eval").body
+    return any(kw.arg == "name" for kw in tree.keywords)
+
+
+def make_replay(src, cls, via, kind, clause, witness, explicit):
+    hdr = REPLAY_HEADER.format(prop=PROP, name="replay_c20.py", clause=clause, witness=witness)
+    s = hdr + "import ast, math, re, logging, warnings\nwarnings.simplefilter('ignore')\n"
+    s += CLASS_SRC
+    s += "param.parameterized.get_logger().setLevel(logging.CRITICAL + 1)\n"
+    s += REPLAY_HELPERS
     s += "obj = %s\n" % src
     s += "text = %s\n" % ("obj.param.pprint()" if via == "pprint" else "param.script_repr(obj)")
     s += "print('text:', repr(text))\n"
@@ -479,16 +752,31 @@ def run(tier, seed):
                % (len(STRINGS), len(NUMBERS), len(INTEGERS), len(ANY), len(LISTS), len(TUPLES2), len(TUPLES1), len(DICTS),
                   len(SUBS), len(NAMES),
                   ("; every pair of lattice values of two different parameters of Box" if tier != "quick" else ""))))
-    B.note("thorough = quick + every pair of lattice values of two different Box parameters; seed is not used")
+    B.bound += ("; class DBox (Dict/Parameter/List/Tuple parameters with NON-EMPTY declared defaults, DBox2 overriding "
+                "one): every value of the SAME SIZE as the default built from {default keys, new keys} x {original value, "
+                "None, 0, False, '', [], {}, 1} (dicts of 1-2 keys; nested dict/list values%s), same-length lists/tuples of "
+                "such dicts, alone, with all other parameters changed, and nested inside another object (as parameter "
+                "value, as list item, as own sub-object); two threads: %d objects x {pprint,script_repr}^2 x every%s "
+                "suspension point of thread A (a line of a printer function) at which thread B prints the same object "
+                "(or its nested child) from start to end"
+                % ((", a 1:n slice chosen by seed" if tier == "quick" else ""), len(THREAD_OBJECTS),
+                   (" 3rd (offset = seed mod 3)" if tier == "quick" else "")))
+    if tier == "quick":
+        B.exhaustive = False
+    B.note("thorough = quick + every pair of lattice values of two different Box parameters + all nested-dict "
+           "variants + every suspension point; seed only selects the quick slices")
     _quiet()
     indexed = list(enumerate(cases))
     nchunks = NWORKERS * 4
     chunks = [indexed[j::nchunks] for j in range(nchunks)]
     results = {}
+    ttasks = thread_tasks(tier, seed)
     with ProcessPoolExecutor(NWORKERS) as ex:
+        tfut = [ex.submit(_thread_worker, t) for t in ttasks]
         for res in ex.map(_worker, [c for c in chunks if c]):
             for idx, f in res:
                 results[idx] = f
+        tres = [f.result() for f in tfut]
     cands = {}
     for idx, (key, cls, src, feat, changed) in indexed:
         B.case(key=key)
@@ -503,6 +791,9 @@ def run(tier, seed):
             if changed.endswith("+all-others") and (via, kind, fam) not in cands:
                 # the value round-trips alone and fails only among other changed parameters
                 fam = "in-context:" + cls
+            base = re.sub(r"-in-obj.*$", "", fam)
+            if base != fam and (via, kind, base) in cands:
+                continue            # the same value already fails on its own: one witness per defect
             ck = (via, kind, fam)
             if ck not in cands:
                 cands[ck] = (idx, cls, src, feat, changed, detail)
@@ -513,4 +804,28 @@ def run(tier, seed):
         witness = "via=%s feature=%s class=%s changed=%s ctor=%s" % (via, feat, cls, changed, src)
         B.violation(clause=clause, witness=witness, detail=detail,
                     replay=make_replay(src, cls, via, kind, clause, witness, _has_top_name(src)))
+    # ---- two threads ------------------------------------------------------------------
+    tcands = {}
+    npoints = 0
+    for (cls, src, va, vb, other, stride, offset), ncases, checks, total, fails in tres:
+        B.evaluations += ncases
+        B._distinct.update(("threads", src, va, vb, other, j) for j in range(ncases))
+        B.checked("C20/round-trip/two-threads[%s+%s]" % (va, vb), checks)
+        npoints += total
+        for k, who, kind, detail in fails:
+            ck = (kind, who)
+            rank = (THREAD_OBJECTS.index((cls, src)), other != "same", va != vb, va, k)
+            if ck not in tcands or rank < tcands[ck][0]:
+                tcands[ck] = (rank, cls, src, va, vb, other, k, detail)
+    for ck in sorted(tcands):
+        kind, who = ck
+        rank, cls, src, va, vb, other, k, detail = tcands[ck]
+        clause = "C20/round-trip/%s" % kind
+        witness = ("via=%s+%s feature=two-threads class=%s changed=- ctor=%s other-thread-prints=%s failing-thread=%s"
+                   % (va, vb, cls, src, other, who))
+        B.violation(clause=clause, witness=witness,
+                    detail="thread A suspended at its printer line %d while thread B printed: %s" % (k, detail),
+                    replay=make_replay_threads(cls, src, va, vb, other, k, who, clause, witness))
+    B.note("two threads: %d schedules run (%d tasks, %d suspension points in all)" % (
+        sum(t[1] for t in tres), len(tres), npoints))
     return B.result()
